@@ -18,6 +18,7 @@ ENGINE_OF = {
     'C07': 'engines.e_dom',
     'C16': 'engines.e_io',
     'C05': 'engines.e_omp',
+    'C14': 'engines.e_interp',
 }
 
 
